@@ -30,6 +30,7 @@ type Clause struct {
 type LoopContract struct {
 	Invariants []*Clause
 	Decreases  *Clause
+	Ensures    []*Clause // "loop N ensures E": holds at the end of every iteration (at each back edge)
 }
 
 type CallSite struct { // "at call <callee>: assert <cond>"
@@ -242,6 +243,9 @@ func (cs *Contracts) loadFile(pkgPath, file string) error {
 					lc.Invariants = append(lc.Invariants, c)
 				case "decreases":
 					lc.Decreases = c
+				case "ensures":
+					c.Ord = len(lc.Ensures) + 1
+					lc.Ensures = append(lc.Ensures, c)
 				default:
 					return fmt.Errorf("%s: bad loop clause kind: %s", file, l)
 				}
